@@ -50,6 +50,29 @@ pub fn scripts(tier: Tier) -> Vec<Script> {
         chain.push(tx(vec![OpSpec::put(&["b"], crate::drivers::KV_KEYS[i % 6], if i % 2 == 0 { "y*310" } else { "z*290" }), OpSpec::put(&["b"], crate::drivers::KV_KEYS[(i + 3) % 6], "u*300")]));
     }
     out.push(Script { name: "update-chain-page-reuse", cfg: small(1024, 64), actions: chain });
+    // 2b. writable transactions committed without any change (a health check, a retried request
+    // that found nothing to do) between page-reusing updates: the commit after such a no-change
+    // commit must still leave every page of the current header alone until its own header is durable
+    out.push(Script {
+        name: "no-change-commits-between-updates",
+        cfg: small(1024, 64),
+        actions: vec![
+            tx({
+                let mut v = vec![OpSpec::bucket("create", &[], "b")];
+                for k in crate::drivers::KV_KEYS {
+                    v.push(OpSpec::put(&["b"], k, "w*300"));
+                }
+                v
+            }),
+            tx(vec![OpSpec::put(&["b"], crate::drivers::KV_KEYS[0], "y*310")]),
+            tx(vec![]),
+            tx(vec![OpSpec::put(&["b"], crate::drivers::KV_KEYS[3], "u*300")]),
+            tx(vec![]),
+            tx(vec![]),
+            tx(vec![OpSpec::put(&["b"], crate::drivers::KV_KEYS[5], "z*290"), OpSpec::bucket("create", &[], "c")]),
+            tx(vec![OpSpec::del(&["b"], crate::drivers::KV_KEYS[1])]),
+        ],
+    });
     // 3. large transaction with overflow values, then shrink
     out.push(Script {
         name: "overflow-values",
